@@ -7,13 +7,13 @@ import sys
 VERIF = os.path.dirname(os.path.dirname(os.path.abspath(__file__)))
 sys.path.insert(0, VERIF)
 import importlib  # noqa: E402
-from rules.registry import NOT_APPLICABLE, ENGINES  # noqa: E402
+from rules.registry import NOT_APPLICABLE, ENGINES, READY  # noqa: E402
 
 CLAIMED = {}
 for f in sorted(os.listdir(os.path.join(VERIF, 'rules'))):
     if f.startswith('c') and f.endswith('.py') and f[1:-3].isdigit():
         mod = importlib.import_module('rules.' + f[:-3])
-        if getattr(mod, 'META', None):
+        if getattr(mod, 'META', None) and f[:-3].upper() in READY:
             CLAIMED[f[:-3].upper()] = mod.META
 for pid in CLAIMED:
     assert pid not in NOT_APPLICABLE, pid
